@@ -248,7 +248,7 @@ func (P *Prog) newGen(fn *ssa.Function, ct *FuncContract) *fnGen {
 	g := &fnGen{P: P, fn: fn, ct: ct, key: shortName(fn.String()), R: newSortReg(),
 		vals: map[ssa.Value]string{}, heapSorts: map[string]string{}, abstracted: map[string]bool{}, assumptions: map[string]bool{},
 		prov: map[ssa.Value]*guardProv{}, regProv: map[*ssa.Alloc]*guardProv{}, callOrd: map[string]int{}, usedContracts: map[string]bool{},
-		tuples: map[ssa.Value][]string{}, deferArgs: map[*ssa.Defer]*callArgs{}, uncontracted: map[string]bool{}, callPosOrd: map[token.Pos]int{}}
+		tuples: map[ssa.Value][]string{}, deferArgs: map[*ssa.Defer]*callArgs{}, uncontracted: map[string]bool{}, callPosOrd: map[token.Pos]int{}, mapOrderSeen: map[*ssa.Range]bool{}}
 	return g
 }
 
